@@ -428,7 +428,14 @@ let run_rdoc (id : string) (fields : sexp list) =
   let full = match find_field "full" fields with Some [A "0"] -> false | _ -> true in
   let th = match find_field "th" fields with Some l -> List.map hx l | None -> [] in
   let show = function Some b -> hex_of_bytes b | None -> "PANIC" in
-  Printf.printf "%s\tRDOC\t%s\t%s\n" id (show (render_html full doc)) (show (render_roff th doc))
+  let console =
+    try (let cdoc = match List.filter (function L (A "doc" :: _) -> true | _ -> false) fields with
+           | [d] -> cdoc_of_sexp d | _ -> failwith "rdoc needs one doc" in
+         match render_console true full (n_of_int 100) cdoc with
+         | Some out -> hex_of_bytes (utf8_encode out)
+         | None -> "PANIC")
+    with Failure _ -> "NOTUTF8" in
+  Printf.printf "%s\tRDOC\t%s\t%s\t%s\n" id (show (render_html full doc)) (show (render_roff th doc)) console
 
 let run_render (id : string) (fields : sexp list) =
   let doc = match List.filter (function L (A "doc" :: _) -> true | _ -> false) fields with
